@@ -139,16 +139,26 @@ def prepare(repo, tmp, modules, layout_files=None):
     return dst
 
 
-def run_one(dst, env, h, playback=False, timeout=1500):
+def run_one(dst, env, h, playback=False, timeout=600):
     cmd = ['cargo', 'kani', '--harness', ('' if h['module'] == 'lib' else h['module'] + '::') + h.get('kmod', 'verif_kani') + '::' + h['name'], '--output-format', 'terse']
     if playback:
         cmd += ['-Z', 'concrete-playback', '--concrete-playback=print']
     t0 = time.time()
+    import signal
+    pr = subprocess.Popen(cmd, cwd=dst, env=env, stdout=subprocess.PIPE, stderr=subprocess.STDOUT, text=True, start_new_session=True)
     try:
-        r = subprocess.run(cmd, cwd=dst, env=env, stdout=subprocess.PIPE, stderr=subprocess.STDOUT, text=True, timeout=timeout)
-        out = r.stdout
-    except subprocess.TimeoutExpired as e:
-        return dict(status='timeout', output=(e.stdout or '')[-1500:] if isinstance(e.stdout, str) else '', seconds=time.time() - t0)
+        out, _ = pr.communicate(timeout=timeout)
+    except subprocess.TimeoutExpired:
+        # kill the whole group: cbmc / kissat children would otherwise keep running
+        try:
+            os.killpg(pr.pid, signal.SIGKILL)
+        except ProcessLookupError:
+            pass
+        try:
+            out, _ = pr.communicate(timeout=10)
+        except Exception:
+            out = ''
+        return dict(status='timeout', output='[no verdict within %d s]\n' % timeout + (out or '')[-1500:], seconds=time.time() - t0)
     dt = time.time() - t0
     if h.get('mode') == 'refusal':
         # refusal harness: the call under test must never return.  Pass iff the only failed
@@ -259,3 +269,44 @@ def parse_playback(out):
     for vm in re.finditer(r'//\s*(.+?)\n\s*vec!\[([^\]]*)\]', body):
         vals.append(dict(value=vm.group(1).strip(), bytes=vm.group(2).strip()))
     return dict(playback_test=body.strip()[:3000], values=vals, failed_checks=re.findall(r'Failed Checks:[^\n]*', out)[:5])
+
+
+def replay_counterexample(repo, build, h, playback_test, timeout=900):
+    """Re-execute a Kani counterexample against the real crate: the concrete-playback unit test Kani
+    printed is appended to the harness module of a scratch copy of `repo` and run natively with
+    `cargo kani playback` (no model checking involved: the harness body runs as ordinary compiled
+    Rust with kani::any() returning the recorded bytes).  Returns (reproduced: bool|None, output)."""
+    m = re.search(r'fn (kani_concrete_playback_\w+)\s*\(', playback_test or '')
+    if not m:
+        return None, 'no concrete playback test recorded'
+    tname = m.group(1)
+    tmp = tempfile.mkdtemp(prefix='verif-kani-replay-')
+    try:
+        lfiles = {}
+        kmod = h.get('kmod', 'verif_kani')
+        if kmod == 'verif_kani_layouts':
+            _, lfiles = gen_layout_harnesses(build, tmp)
+            hsrc = lfiles.get(h['module'])
+        else:
+            hsrc = os.path.join(VERIF, 'kani', h['module'] + '.rs')
+        if not hsrc or not os.path.exists(hsrc):
+            return None, 'harness source not found'
+        dst = os.path.join(tmp, 'crate')
+        shutil.copytree(repo, dst, ignore=shutil.ignore_patterns('target', '.git', 'rust-vmm-ci'))
+        hcopy = os.path.join(tmp, 'harness_%s.rs' % h['module'])
+        body = re.sub(r'^\s*///[^\n]*\n', '', playback_test, flags=re.M)
+        open(hcopy, 'w').write(open(hsrc).read() + '\n' + body + '\n')
+        with open(os.path.join(dst, 'src', h['module'] + '.rs'), 'a') as f:
+            f.write('\n#[cfg(kani)]\n#[path = "%s"]\nmod %s;\n' % (hcopy, kmod))
+        os.makedirs(os.path.join(dst, '.cargo'), exist_ok=True)
+        open(os.path.join(dst, '.cargo', 'config.toml'), 'w').write('[net]\noffline = true\n')
+        env = dict(os.environ, CARGO_NET_OFFLINE='true', CARGO_TARGET_DIR=os.path.join(tmp, 'target'))
+        r = subprocess.run(['cargo', 'kani', 'playback', '-Z', 'concrete-playback', '--', tname], cwd=dst, env=env,
+                           stdout=subprocess.PIPE, stderr=subprocess.STDOUT, text=True, timeout=timeout)
+        out = r.stdout[-4000:]
+        ran = re.search(r'running 1 test', r.stdout) is not None
+        if not ran:
+            return None, out
+        return (r.returncode != 0), out
+    finally:
+        shutil.rmtree(tmp, ignore_errors=True)
